@@ -8,6 +8,8 @@ import re
 
 LOCKS = r"(?:std::sync::(?:poison::)?(?:RwLock|Mutex))"
 ARC_LOCK = r"std::sync::Arc<" + LOCKS + r"<%s>>"
+ATOMIC_BOOL = r"std::sync::Arc<std::sync::atomic::Atomic(?:Bool|<bool>)>"
+ATOMIC_INT = r"std::sync::Arc<std::sync::atomic::Atomic(?:I32|I64|U32|U64|Usize|Isize|<(?:i32|i64|u32|u64|usize|isize)>)>"
 FWT = r"internals::function_wrapper::FunctionWrapper<'[a-z_]+, %s, %s>"
 TP = r"[A-Z][A-Za-z0-9_]*"          # a generic type parameter
 
@@ -22,10 +24,10 @@ SPECS = {
         ("fn_complete", _m(FWT % (r"\(\)", r"\(\)"))),
         ("fn_next", _m(FWT % (TP, r"\(\)"))),
         ("fn_on_unsubscribe", _m(ARC_LOCK % (r"std::option::Option<" + FWT % (r"\(\)", r"\(\)") + ">"))),
-        ("terminated", _m(ARC_LOCK % "bool")),
+        ("terminated", _m("(?:" + ARC_LOCK % "bool" + "|" + ATOMIC_BOOL + ")")),
     ],
     "internals::stream_controller::StreamController": [
-        ("serial", _m(ARC_LOCK % r"(?:i32|i64|u32|u64|usize)")),
+        ("serial", _m("(?:" + ARC_LOCK % r"(?:i32|i64|u32|u64|usize)" + "|" + ATOMIC_INT + ")")),
         ("subscriber", _m(r"observer::Observer<'[a-z_]+, " + TP + ">")),
         ("unscribers", _m(ARC_LOCK % (r"std::collections::(?:HashMap|BTreeMap)<(?:i32|i64|u32|u64|usize), " + FWT % (r"\(\)", r"\(\)") + r"(?:, [^>]*)?>"))),
         ("on_finalize", _m(ARC_LOCK % (r"std::option::Option<" + FWT % (r"\(\)", r"\(\)") + ">"))),
@@ -62,7 +64,7 @@ SPECS = {
     ],
     "subjects::subject::Subject": [
         ("observers", _m(ARC_LOCK % (r"std::collections::(?:HashMap|BTreeMap)<(?:i32|i64|u32|u64|usize), observer::Observer<'[a-z_]+, " + TP + r">(?:, [^>]*)?>"))),
-        ("serial", _m(ARC_LOCK % r"(?:i32|i64|u32|u64|usize)")),
+        ("serial", _m("(?:" + ARC_LOCK % r"(?:i32|i64|u32|u64|usize)" + "|" + ATOMIC_INT + ")")),
     ],
 }
 # Subject's two hooks have the same type: told apart by the pub(crate) setter that stores into them
@@ -79,18 +81,30 @@ def _norm(p):
 
 
 def compute_renames(facts):
-    """{(normalised ADT path, actual field name): canonical name}"""
+    """{(normalised ADT path, actual field name): canonical name}.  A spec is tried on the struct it
+    is written for and on every other struct of the same module (a refactoring may group the
+    fields into a private helper struct); a role that matches more than one field overall is
+    dropped (ambiguous: leave the names alone)."""
     ren = {}
+    by_mod = {}
     for a in facts["adts"]:
-        an = _norm(a["path"])
-        spec = SPECS.get(an)
-        if not spec:
-            continue
-        fields = [f for v in a["variants"] for f in v["fields"]]
+        by_mod.setdefault(_norm(a["path"]).rsplit("::", 1)[0], []).append(a)
+    for spec_adt, spec in SPECS.items():
+        mod = spec_adt.rsplit("::", 1)[0]
+        cands = by_mod.get(mod, [])
         for (canon, rx) in spec:
-            hits = [f["name"] for f in fields if rx.match(f["ty"]["s"])]
-            if len(hits) == 1 and hits[0] != canon:
-                ren[(an, hits[0])] = canon
+            hits = []
+            for a in cands:
+                for v in a["variants"]:
+                    for f in v["fields"]:
+                        if rx.match(f["ty"]["s"]):
+                            hits.append((_norm(a["path"]), f["name"]))
+            # prefer the struct the spec names when it still has the field
+            own = [h for h in hits if h[0] == spec_adt]
+            if len(own) == 1:
+                hits = own
+            if len(hits) == 1 and hits[0][1] != canon:
+                ren[hits[0]] = canon
     # Subject hooks via their setters
     sub = "subjects::subject::Subject"
     for b in facts["bodies"]:
@@ -105,15 +119,23 @@ def compute_renames(facts):
                                 for e in p[1:] if p else []:
                                     if isinstance(e, str) and e.startswith(".") and ":" in e:
                                         nm = e.split(":", 1)[1]
+                                        adt = sub
                                         if "@" in nm:
                                             nm, adt = nm.split("@", 1)
-                                            if _norm(adt) != sub:
+                                            adt = _norm(adt)
+                                            if not adt.startswith("subjects::subject::"):
                                                 continue
-                                        names.add(nm)
-                if len(names) == 1:
-                    n = names.pop()
-                    if n != canon:
-                        ren[(sub, n)] = canon
+                                        names.add((adt, nm))
+                # the hook field is the innermost field of a subject-module struct that the setter writes through
+                hooks = [x for x in names if x[1] not in ("hub",) ]
+                typed = []
+                for a in facts["adts"]:
+                    for v in a["variants"]:
+                        for f in v["fields"]:
+                            if (_norm(a["path"]), f["name"]) in names and "FunctionWrapper" in f["ty"]["s"] and "Option" in f["ty"]["s"]:
+                                typed.append((_norm(a["path"]), f["name"]))
+                if len(typed) == 1 and typed[0][1] != canon:
+                    ren[typed[0]] = canon
     return ren
 
 
